@@ -569,7 +569,10 @@ class _AnyResult:
         self.kind, self.tens = kind, t
 
     def any(self):
-        return SymBool(uf(f"any_{self.kind}", ARR, z3.BoolSort())(self.tens.v if not self.tens.scalar else z3.K(z3.IntSort(), self.tens.at(0))))
+        # the predicate is indexed by the dtype the check is performed in: a value that is finite in float64 may overflow to
+        # inf once narrowed to float32 / bfloat16, so "checked before the cast" and "checked after the cast" are different facts
+        dn = str(self.tens.dtype).split(".")[-1] if self.tens.dtype is not None else "any"
+        return SymBool(uf(f"any_{self.kind}_{dn}", ARR, z3.BoolSort())(self.tens.v if not self.tens.scalar else z3.K(z3.IntSort(), self.tens.at(0))))
 
 
 def _tensordot(a, b, dims):
